@@ -318,9 +318,19 @@ func (m *machine) update() {
 	} else {
 		h = rapid.SampledFrom(cands).Draw(t, "exchange")
 	}
-	outcome := rapid.SampledFrom([]string{"kernel-later", "kernel-later", "unreadable", "kernel-before-rx"}).Draw(t, "outcome")
+	outcome := rapid.SampledFrom([]string{"kernel-later", "kernel-later", "unreadable", "kernel-before-rx", "kernel-between-rx-and-clock-reading"}).Draw(t, "outcome")
 	txt1 := h.txt
 	switch outcome {
+	case "kernel-between-rx-and-clock-reading":
+		// a timestamping clock that lags the system clock (or a clock set back between handling and sending): the
+		// kernel's transmit time is later than the receive time but earlier than the handler's clock reading
+		if gap := int64(h.txt.Sub(h.rxt)); gap >= 2 {
+			txt1 = h.rxt.Add(time.Duration(rapid.Int64Range(1, gap-1).Draw(t, "kd")))
+			m.labels["kernel-tx-before-clock-reading"]++
+		} else {
+			outcome = "kernel-later"
+			txt1 = h.txt.Add(time.Duration(rapid.Int64Range(1, 50000).Draw(t, "kd")))
+		}
 	case "kernel-later":
 		txt1 = h.txt.Add(time.Duration(rapid.Int64Range(1, 50000).Draw(t, "kd")))
 	case "kernel-before-rx":
@@ -386,7 +396,7 @@ func (m *machine) update() {
 	m.agree(h.client)
 }
 
-var rec = ev.New("c06/handler-history", "rapid state machine over the real request handler and transmit-timestamp update (verif hooks) with a registered fake clock: 2..5 clients; requests of kinds {basic, interleaved citing the latest / any / a superseded reply of the same client, citing another client's reply, unknown origin, rx field == tx field, verbatim replay}, receive times {later, colliding with a kept one of the same or another client, earlier, +1 ns chains}, bases incl. the 2036 era boundary, clock reading after/equal/before the receive time; transmit-timestamp updates {kernel later, unreadable, kernel before rx} applied immediately, delayed or never. Oracle: history model independent of the replacement policy (header fields, rx uniqueness, basic/interleaved justification against the pre-call snapshot, recorded tx = kernel value once delivered, lost exchanges dropped, no foreign timestamps, pair on record right after a stateful request). One evaluation = one step. Non-trivial: sequence with an interleaved reply, an rx collision bump or a lost-tx removal; distinct by hash of the step log")
+var rec = ev.New("c06/handler-history", "rapid state machine over the real request handler and transmit-timestamp update (verif hooks) with a registered fake clock: 2..5 clients; requests of kinds {basic, interleaved citing the latest / any / a superseded reply of the same client, citing another client's reply, unknown origin, rx field == tx field, verbatim replay}, receive times {later, colliding with a kept one of the same or another client, earlier, +1 ns chains}, bases incl. the 2036 era boundary, clock reading after/equal/before the receive time; transmit-timestamp updates {kernel later than the clock reading, kernel between receive time and clock reading, unreadable, kernel before rx} applied immediately, delayed or never. Oracle: history model independent of the replacement policy (header fields, rx uniqueness, basic/interleaved justification against the pre-call snapshot, recorded tx = kernel value once delivered, lost exchanges dropped, no foreign timestamps, pair on record right after a stateful request). One evaluation = one step. Non-trivial: sequence with an interleaved reply, an rx collision bump or a lost-tx removal; distinct by hash of the step log")
 
 func TestPropHandlerHistory(t *testing.T) {
 	vt.Check(t, 30000, 150000, func(t *rapid.T) {
